@@ -258,7 +258,8 @@ var HostileStrings = []string{"", "a", "\"", "'", "\\", "a\"b", "it's", "a\\b", 
 	// texts that read like operators (translations that work on text)
 	" == ", "a != b", " && ",
 	// characters U+0080..U+00FF next to characters that are written as escapes
-	"Caf\u00e9 \"Zo\u00eb\"", "M\u00e1laga\nEspa\u00f1a", "25\u00b0C \\ 77\u00b0F", "a\u00a0b", "\u00ff\t"}
+	"Caf\u00e9 \"Zo\u00eb\"", "M\u00e1laga\nEspa\u00f1a", "25\u00b0C \\ 77\u00b0F", "a\u00a0b", "\u00ff\t",
+	"first; second", ";", "a;"}
 
 var smallFloats = []float64{0, 1, 2, 3, 0.5, 1.5, 2.5, -1, -0.5, 4, 0.25}
 
